@@ -1,4 +1,4 @@
-CONSTANTS MCKinds <- AllKinds  Enforce <- AllProps  Configs <- QuickConfigs  Requests <- MCRequests  Opcodes <- QuickOps  LenClasses <- QuickLens
+CONSTANTS MCKinds <- AllKinds  Enforce <- AllProps  Configs <- QuickConfigs  Requests <- MCRequests  Opcodes <- QuickOps  LenClasses <- QuickLens  DbSlots <- NoDb
 SPECIFICATION Spec
 INVARIANTS TypeOK RevealAfterVerify OrderOnly KeyOnlyAfterSuccess DistAfterCompletion StatusSound
 PROPERTIES DistOnlyEncrypted
